@@ -33,7 +33,11 @@ def akai_payload():
                 m = A.needed_sectors(140 + 2 * n)
                 ch = list(range(sec, sec + m))[::-1]
                 sec += m
-                files.append({"name": nm, "n": n, "chain": ch, "seq": seq})
+                f = {"name": nm, "n": n, "chain": ch, "seq": seq}
+                if nm in ("ONE", "SOLO"):
+                    # active loops (two finite, one held forever): everything that is derived from the loop table
+                    f["hdr"] = {"loop_type": 1 if nm == "ONE" else 0, "loops": [(100, 0, 40, 250), (200, 0, 50, 9999), (0, 0, 0, 0), (250, 3, 20, 7)]}
+                files.append(f)
             if v == 0:
                 files.append({"name": "PROG", "kind": "raw", "ftype": 0xF0, "chain": [sec], "data": prog})
                 sec += 1
